@@ -14,6 +14,8 @@ R5 indexing of peer-decoded structures: every `v[i]` / `v[a..b]` whose base is a
 """
 from ..callgraph import CallGraph
 from ..expr import call_name, has_call, has_field, show, strip, trait_method, walk
+from .. import gate
+from ..paths import Explorer
 from ..linear import Lin
 from ..report import Finding, Result
 from . import c10
@@ -27,6 +29,9 @@ ENTRY = [
 PEER_DECODED_ENUMS = ("saito_core::core::msg::message::Message",)
 # one symbol, one reason
 R2_EXCEPTIONS = {
+    (CORE + "consensus::peers::peer_collection::PeerCollection::remove_reconnected_peer", "Peer.public_key"):
+        "`self.address_to_peers.remove(&peer.public_key?)` two lines above returns None when the key is absent; `peer` is an owned local "
+        "(just removed from the map) that nothing modifies in between (the `?` tests a copy of the field, which the variant facts do not tie back to it)",
     (CORE + "io::network::Network::handle_handshake_response::{closure#0}", "find_peer_by_index_mut"):
         "the same index was looked up and found at the top of the function under the same peers write guard; "
         "remove_reconnected_peer in between removes only a peer with a different index",
@@ -133,6 +138,16 @@ class UnwrapScan(c10.DecoderAnalysis):
                 x = x[1]
             ok = False
             good = ("Ok", "Some")
+            if x[0] == "local" and body.name_of(x[1]) is None:
+                # an unnamed temporary holding a copy of an Option field made right before the call (`unwrap(copy self.public_key)`)
+                dfs_ = body.defs(x[1])
+                if len(dfs_) == 1 and dfs_[0][0] == "stmt" and dfs_[0][1] == bb:
+                    from ..expr import Chaser as _ChT
+                    y_ = _ChT(body).rvalue(dfs_[0][3], 0)
+                    while y_[0] in ("ref", "deref"):
+                        y_ = y_[1]
+                    if y_[0] == "field":
+                        x = y_
             y, want = x, None
             if y[0] == "via" and y[1] in ("std::option::Option::as_ref", "std::option::Option::as_mut", "std::result::Result::as_ref"):
                 y = y[2]
@@ -154,6 +169,7 @@ def run(prog, tier, extra=None):
     R7 = res.rule("C11.reject-leaves-pool", "the path that disposes of a refused block removes nothing from the transaction pool and releases no input reservation", floor=5)
     R8 = res.rule("C11.fetch-quota", "every block request handed out per peer consumes one unit of that peer's quota: `batch_size - fetching_count` cannot underflow", floor=1)
     R9 = res.rule("C11.peer-assert", "no assert_eq!/assert_ne! in a handler-reachable body compares a field of a peer-decoded message", floor=0)
+    R10 = res.rule("C11.ghost-chain-gate", "a GhostChain message reaches Blockchain::add_ghost_block only from a peer with a verified key and only on a lite node", floor=2)
     R5 = res.rule("C11.peer-indexing", "indexing into fields of peer-decoded structures is covered by a dominating length fact", floor=60)
 
     _r2_cov = {}
@@ -247,6 +263,17 @@ def run(prog, tier, extra=None):
         # R2: what is the unwrapped value itself?
         pre = None
         y0 = strip(x)
+        if y0[0] == "local":
+            # a Copy field is unwrapped through a temporary (`_t = copy (*peer).public_key; unwrap(move _t)`): classify by what the
+            # temporary holds
+            dfs0 = b.defs(y0[1])
+            if len(dfs0) == 1 and dfs0[0][0] == "stmt":
+                from ..expr import Chaser as _ChR2
+                y1 = strip(_ChR2(b).rvalue(dfs0[0][3], 0))
+                while y1[0] in ("ref", "deref"):
+                    y1 = strip(y1[1])
+                if y1[0] == "field":
+                    y0 = y1
         if y0[0] == "field" and y0[2].endswith("peer::Peer") and y0[3] in ("public_key", "challenge_for_peer"):
             pre = "Peer." + y0[3]
         elif y0[0] == "call" and y0[1] == CORE + "consensus::peers::peer::Peer::get_public_key":
@@ -537,6 +564,32 @@ def run(prog, tier, extra=None):
                                 "(and with the native panic hook, the node)" % (p9.replace(CORE, "").replace("::{closure#0}", ""), ", ".join(peer_fields)), b9.loc(bb)))
             else:
                 res.sample({"rule": R9, "site": b9.loc(bb), "verdict": "no peer-decoded field among the compared operands"})
+    # a ghost chain rewrites the longest-chain index wholesale (add_ghost_block marks the forged entries, the tip moves, the genesis
+    # period window follows). It is the answer to a request only a lite node makes after the handshake; taken from anybody, on a full
+    # node, one message moves the tip and can purge honest blocks.
+    pgc = prog.body(CORE + "routing_thread::RoutingThread::process_ghost_chain::{closure#0}")
+    if pgc is None:
+        raise LookupError("RoutingThread::process_ghost_chain not found")
+    chg = c10.StableChaser(pgc)
+    from ..expr import Chaser as _ChG
+    chg2 = _ChG(pgc)
+    eff10 = lambda bb, env: "ghost" if (pgc.term(bb)["k"] == "call" and (call_name(pgc.term(bb)) or "").endswith("Blockchain::add_ghost_block")) else None
+    key_sw = gate.bool_switch_edges(pgc, chg2, lambda e: e[0] == "call" and e[1].rsplit("::", 1)[-1] in ("is_none", "is_some") and
+                                    (has_field(e, "peer::Peer", "public_key") or has_call(e, "Peer::get_public_key")))
+    key_present = set()
+    for sb in key_sw["sites"]:
+        e_ = gate.unwrap_not(chg2.origin(pgc.term(sb)["discr"]))[0]
+        is_none_ = e_[0] == "call" and e_[1].rsplit("::", 1)[-1] == "is_none"
+        key_present |= {x for x in (key_sw["false"] if is_none_ else key_sw["true"]) if x[0] == sb}
+    lite_sw = gate.bool_switch_edges(pgc, chg2, lambda e: e[0] == "call" and e[1].rsplit("::", 1)[-1] in ("is_spv_mode", "is_browser"))
+    for label, good, why in (("peer-key", key_present, "the sender's verified key"), ("lite-node", lite_sw["true"], "this node being a lite node (spv / browser)")):
+        res.instance(R10)
+        f10 = Explorer(pgc).explore(0, deleted_edges=set(good), accept=eff10) if True else None
+        if f10:
+            res.add(Finding(R10, "C11.ghost-chain-gate|%s" % label, "RoutingThread::process_ghost_chain reaches Blockchain::add_ghost_block without a test of %s: one GhostChain "
+                            "message from any connection rewrites the longest-chain index and moves the tip of the node" % why, pgc.loc(sorted(f10.values())[0][-1])))
+        else:
+            res.sample({"rule": R10, "gate": label, "verdict": "add_ghost_block only behind the test"})
     # a handler that waits for a lock in an inverted order never returns: lock-order findings inside handler-reachable bodies
     from ._include import include
     live_plain = {q.replace("::{closure#0}", "") for q in live}
